@@ -13,7 +13,8 @@ CODE, 4 for DN there, 2 for DN on any byte-addressed segment, 4 resp. 8 on KCPSM
 for every `k > 1`, every count and every start position inside a unit.  What is *not* a theorem
 (only tested by the correspondence): constant (non-`?`) forms on packed segments, the `LoHiMap`
 tables, DUP bodies that mix `?` and nested DUPs beyond the stated shapes (the step theorems compose
-to any such tree, but the composition is not stated as one theorem), `CodeCHARSET` = the manual's table.
+to any such tree, but the composition is not stated as one theorem).  (`CodeCHARSET` = the manual's table is
+proved since: `C09_pages_charset_is_manual` in `Props/C09_Pages.lean`.)
 -/
 namespace AslModel.C09
 open AslModel.PFile (Byte b)
